@@ -23,7 +23,7 @@ abbrev Input := Array UInt8
 inductive Res (α : Type) where
   | ok (a : α)
   | crash (why : String)
-deriving Repr
+deriving Repr, DecidableEq
 
 @[inline] def Res.bind {α β} (r : Res α) (f : α → Res β) : Res β :=
   match r with
@@ -357,17 +357,19 @@ def classifyNumber (cfg : Cfg) (lit : List Nat) : Nat :=
       else if lit.length > 1 && lit[0]! == 48 then cfg.tNUMBER
       else cfg.tINT
 
+/-- first loop position of `handleNumber` (after an optional `-`); `none` = not a number start -/
+def numBegin (cfg : Cfg) (inp : Input) (start : Nat) : Option Nat :=
+  let first := bAt inp start
+  if first == 45 then
+    if start + 1 ≥ inp.size || !cfg.isDigit (bAt inp (start+1)) then none else some (start+1)
+  else if !cfg.isDigit first then none
+  else some start
+
 /-- `handleNumber`: (type, newPos) -/
 def handleNumber (cfg : Cfg) (inp : Input) (start : Nat) : Res (Option (Nat × Nat)) :=
   if start ≥ inp.size then .ok none
   else
-    let first := bAt inp start
-    let begin? : Option Nat :=
-      if first == 45 then
-        if start + 1 ≥ inp.size || !cfg.isDigit (bAt inp (start+1)) then none else some (start+1)
-      else if !cfg.isDigit first then none
-      else some start
-    match begin? with
+    match numBegin cfg inp start with
     | none => .ok none
     | some p0 =>
       match numLoop cfg inp start (inp.size + 1) p0 with
@@ -585,16 +587,16 @@ def validIdentTok (cfg : Cfg) (t : Tok) : Bool :=
     if !cfg.isLetter r0 && r0 != 95 && r0 < 0x4e00 then false
     else allRunes (fun r => !(!cfg.isLetter r && !cfg.isDigit r && r != 95 && r < 0x4e00)) lit (lit.size + 1) 0
 
-/-- the `\ident(\ident)*` chain after a leading separator: returns (tokens consumed, last token, literal) -/
-def nsChain (cfg : Cfg) : Nat → List Tok → Tok → List Nat → Nat → Nat × Tok × List Nat
-  | 0, _, last, lit, n => (n, last, lit)
-  | f+1, toks, last, lit, n =>
+/-- the `\ident(\ident)*` chain after a leading separator: returns (remaining tokens, last token, literal) -/
+def nsChain (cfg : Cfg) : Nat → List Tok → Tok → List Nat → List Tok × Tok × List Nat
+  | 0, toks, last, lit => (toks, last, lit)
+  | f+1, toks, last, lit =>
     match toks with
     | sep :: id :: rest =>
       if sep.ty == cfg.tNSSEP && validIdentTok cfg id then
-        nsChain cfg f rest id (lit ++ sep.lit ++ id.lit) (n + 2)
-      else (n, last, lit)
-    | _ => (n, last, lit)
+        nsChain cfg f rest id (lit ++ sep.lit ++ id.lit)
+      else (toks, last, lit)
+    | _ => (toks, last, lit)
 
 /-- pass 1: drop whitespace/comments, merge `$`+name and `\`+identifier.
     (`p.tokens[i+1]` is read inside the `i+1 < len` test after the `fix:`, so no
@@ -619,35 +621,38 @@ def pass1 (cfg : Cfg) : Nat → List Tok → List Tok → List Tok
           if next.ty == cfg.tIDENT then
             pass1 cfg f rest' (⟨cfg.tIDENT, t.start, next.stop, next.line, t.lit ++ next.lit⟩ :: acc)
           else if validIdentTok cfg next then
-            let (n, last, lit) := nsChain cfg (rest'.length + 1) rest' next (t.lit ++ next.lit) 0
-            pass1 cfg f (rest'.drop n) (⟨cfg.tIDENT, t.start, last.stop, last.line, lit⟩ :: acc)
+            let r := nsChain cfg (rest'.length + 1) rest' next (t.lit ++ next.lit)
+            pass1 cfg f r.1 (⟨cfg.tIDENT, t.start, r.2.1.stop, r.2.1.line, r.2.2⟩ :: acc)
           else pass1 cfg f rest (t :: acc)
         | [] => pass1 cfg f rest (t :: acc)
       else pass1 cfg f rest (t :: acc)
+
+/-- does the NEWLINE between `prev` and the head of `rest` become a `;` -/
+def semiHere (cfg : Cfg) (prev : Option Tok) (rest : List Tok) : Bool :=
+  match prev, rest with
+  | some p, n :: _ => !cfg.noSemiAfterPrev.contains p.ty && !cfg.noSemiBeforeNext.contains n.ty
+  | _, _ => false
 
 /-- pass 2: a NEWLINE becomes `;` unless the previous / next token forbids it; NEWLINEs are dropped -/
 def pass2 (cfg : Cfg) : Option Tok → List Tok → List Tok
   | _, [] => []
   | prev, t :: rest =>
     if t.ty == cfg.tNEWLINE then
-      let semi :=
-        match prev, rest with
-        | some p, n :: _ => !cfg.noSemiAfterPrev.contains p.ty && !cfg.noSemiBeforeNext.contains n.ty
-        | _, _ => false
-      if semi then { t with ty := cfg.tSEMI } :: pass2 cfg (some t) rest else pass2 cfg (some t) rest
+      if semiHere cfg prev rest then { t with ty := cfg.tSEMI } :: pass2 cfg (some t) rest
+      else pass2 cfg (some t) rest
     else t :: pass2 cfg (some t) rest
 
-/-- pass 3: `ident =` after `[ { ( ; ,` (and at index > 2) becomes a VARIABLE -/
+/-- pass 3 decision: `ident =` after `[ { ( ; ,` (and at index > 2) becomes a VARIABLE -/
+def toVar (cfg : Cfg) (idx : Nat) (prev : Option Tok) (t : Tok) (rest : List Tok) : Bool :=
+  match prev, rest with
+  | some p, n :: _ => t.ty == cfg.tIDENT && n.ty == cfg.tASSIGN && idx > 2 && cfg.identToVarPrev.contains p.ty
+  | _, _ => false
+
+/-- pass 3 -/
 def pass3 (cfg : Cfg) (idx : Nat) : Option Tok → List Tok → List Tok
   | _, [] => []
   | prev, t :: rest =>
-    let t' :=
-      match prev, rest with
-      | some p, n :: _ =>
-        if t.ty == cfg.tIDENT && n.ty == cfg.tASSIGN && idx > 2 && cfg.identToVarPrev.contains p.ty then
-          { t with ty := cfg.tVARIABLE } else t
-      | _, _ => t
-    t' :: pass3 cfg (idx + 1) (some t) rest
+    (if toVar cfg idx prev t rest then { t with ty := cfg.tVARIABLE } else t) :: pass3 cfg (idx + 1) (some t) rest
 
 def process (cfg : Cfg) (raw : List Tok) : List Tok :=
   pass3 cfg 0 none (pass2 cfg none (pass1 cfg (raw.length + 1) raw []))
@@ -661,7 +666,12 @@ inductive Out where
   | tokens (ts : List Tok)
   | html            -- `<!DOCTYPE` source: handed to HtmlLexer (not modelled)
   | crash (why : String)
-deriving Repr
+deriving Repr, DecidableEq
+
+/-- tokens of an outcome (empty for the other outcomes) -/
+def Out.toks : Out → List Tok
+  | .tokens ts => ts
+  | _ => []
 
 /-- raw tokens (before `Process`) -/
 def tokenizeRaw (cfg : Cfg) (inp : Input) : Mode → Res (List Tok)
